@@ -1,9 +1,614 @@
+// C14 — configuration file, lease database and filter-list files are replaced
+// atomically.  Engine E3 (DESIGN.md §2.5, §4 C14): a child process performs
+// real saves through the real code; the parent records its system calls with
+// strace, kills it for real on entry to every file-system call of the save,
+// and explores a power-loss model over the recorded log.
 package main
 
-import "os"
+import (
+	"bytes"
+	"context"
+	"encoding/json"
+	"errors"
+	"fmt"
+	"os"
+	"os/exec"
+	"path/filepath"
+	"strconv"
+	"strings"
+	"time"
+
+	"github.com/AdguardTeam/AdGuardHome/internal/verifx/lib"
+)
+
+// recordSet is what run 1 traces; killSet is the smaller set the injected runs
+// trace.  The occurrence counter of strace's inject is per thread and per
+// system call, so a kill point is (call name, occurrence), and the extra calls
+// of recordSet do not shift it.
+const (
+	recordSet = "trace=%file,%desc,fsync,fdatasync,sync,syncfs,rename,renameat,renameat2,write,pwrite64,ftruncate,unlink,unlinkat,close"
+	killSet   = "trace=open,openat,creat,close,write,pwrite64,writev,pwritev,ftruncate,truncate,fsync,fdatasync,sync,syncfs,sync_file_range," +
+		"rename,renameat,renameat2,unlink,unlinkat,rmdir,link,linkat,symlink,symlinkat,mkdir,mkdirat,stat,lstat,fstat,newfstatat,statx," +
+		"access,faccessat,faccessat2,readlink,readlinkat,chmod,fchmod,fchmodat,utimensat,fallocate,copy_file_range,sendfile,lseek,getdents64"
+)
+
+var killCalls = func() map[string]bool {
+	m := map[string]bool{}
+	for _, n := range strings.Split(strings.TrimPrefix(killSet, "trace="), ",") {
+		m[n] = true
+	}
+	return m
+}()
+
+// scenario is one child run.
+type scenario struct {
+	Kind string `json:"kind"`
+	Size int    `json:"size"`
+	// Old: the destination exists (generation 0) before the observed saves.
+	Old bool `json:"old_present"`
+	// Tmp: "same" = temporary files are created next to the destination
+	// (TMPDIR unusable), "other" = in another directory of the same file
+	// system (TMPDIR usable), the two placements renameio chooses between.
+	Tmp string `json:"tmpdir"`
+}
+
+func (s scenario) id() string {
+	return fmt.Sprintf("%s/size=%d/old=%v/tmp=%s", s.Kind, s.Size, s.Old, s.Tmp)
+}
+
+type caseC struct {
+	Scenario scenario    `json:"scenario"`
+	Mode     string      `json:"mode"` // kill | powerloss
+	K        int         `json:"event_index,omitempty"`
+	Call     string      `json:"call,omitempty"`
+	Crash    *crashState `json:"crash_state,omitempty"`
+	Observed string      `json:"observed_class"`
+	Allowed  string      `json:"allowed"`
+	Window   []string    `json:"window_calls,omitempty"`
+}
+
+func sizes(tier string) []int {
+	s := []int{0, 1, 4095, 4096, 4097, 1 << 20}
+	if tier == "thorough" {
+		s = append(s, 32<<20)
+	}
+	return s
+}
+
+func scenarios(tier string) (out []scenario) {
+	for _, kind := range []string{"config", "leases", "filter"} {
+		for _, sz := range sizes(tier) {
+			for _, old := range []bool{true, false} {
+				for _, tmp := range []string{"same", "other"} {
+					if kind == "filter" && sz == 0 && !old {
+						// Nothing is stored when an absent list is refreshed
+						// with an empty one.
+						continue
+					}
+					sc := scenario{Kind: kind, Size: sz, Old: old, Tmp: tmp}
+					if only := os.Getenv("VERIF_C14_ONLY"); only != "" && !strings.Contains(sc.id(), only) {
+						continue // development aid
+					}
+					out = append(out, sc)
+				}
+			}
+		}
+	}
+	return out
+}
+
+// runner executes child runs of one scenario.
+type runner struct {
+	c     *lib.Ctx
+	sc    scenario
+	calib string
+	seq   int
+	self  string
+}
+
+func (r *runner) timeout() time.Duration {
+	if r.sc.Size > 8<<20 {
+		return 10 * time.Minute
+	}
+	return 2 * time.Minute
+}
+
+func (r *runner) newDir() (dir string, err error) {
+	r.seq++
+	dir = filepath.Join(r.c.TmpDir, fmt.Sprintf("s%d", r.seq))
+	if err = os.MkdirAll(filepath.Join(dir, "tmp"), 0o755); err != nil {
+		return "", err
+	}
+	return dir, nil
+}
+
+func (r *runner) env(dir string) []string {
+	tmp := filepath.Join(dir, "tmp")
+	if r.sc.Tmp == "same" {
+		tmp = filepath.Join(dir, "no-such-tmp")
+	}
+	return []string{"GOMAXPROCS=1", "GODEBUG=asyncpreemptoff=1", "TMPDIR=" + tmp, "PATH=/usr/bin:/bin", "HOME=/nonexistent"}
+}
+
+func (r *runner) childArgs(dir string) []string {
+	old := "0"
+	if r.sc.Old {
+		old = "1"
+	}
+	return []string{"-child", "-kind", r.sc.Kind, "-dir", dir, "-size", strconv.Itoa(r.sc.Size), "-old", old, "-calib", r.calib}
+}
+
+// calibrate asks an untraced child for the padding that gives the wanted size.
+func (r *runner) calibrate() (actual int, err error) {
+	dir, err := r.newDir()
+	if err != nil {
+		return 0, err
+	}
+	defer os.RemoveAll(dir)
+	ctx, cancel := context.WithTimeout(context.Background(), r.timeout())
+	defer cancel()
+	cmd := exec.CommandContext(ctx, r.self, "-child", "-kind", r.sc.Kind, "-dir", dir, "-size", strconv.Itoa(r.sc.Size), "-calibrate")
+	cmd.Env = r.env(dir)
+	out, err := cmd.CombinedOutput()
+	if err != nil {
+		return 0, fmt.Errorf("calibrate %s: %v: %s", r.sc.id(), err, out)
+	}
+	if _, err = fmt.Sscanf(strings.TrimSpace(string(out)), "calib=%s actual=%d", &r.calib, &actual); err != nil {
+		return 0, fmt.Errorf("calibrate %s: bad output %q", r.sc.id(), out)
+	}
+	return actual, nil
+}
+
+// traced is the result of one strace run.
+type traced struct {
+	dir    string
+	dest   string
+	evs    []*event
+	rel    []*event
+	killed bool
+	stderr string
+}
+
+func (r *runner) destOf(dir string) string {
+	switch r.sc.Kind {
+	case "config":
+		return filepath.Join(dir, "AdGuardHome.yaml")
+	case "leases":
+		return filepath.Join(dir, "data", "leases.json")
+	}
+	return filepath.Join(dir, "data", "filters", "1.txt")
+}
+
+// run executes the child under strace.  inject is "" for the recording run or
+// the -e inject= expression.
+func (r *runner) run(traceSet, inject string) (t *traced, err error) {
+	dir, err := r.newDir()
+	if err != nil {
+		return nil, err
+	}
+	logPath := dir + ".strace"
+	defer os.Remove(logPath)
+	args := []string{"-f", "-y", "-s", "16", "-e", traceSet}
+	if inject != "" {
+		args = append(args, "-e", inject)
+	}
+	args = append(args, "-o", logPath, r.self)
+	args = append(args, r.childArgs(dir)...)
+	ctx, cancel := context.WithTimeout(context.Background(), r.timeout())
+	defer cancel()
+	cmd := exec.CommandContext(ctx, "strace", args...)
+	cmd.Env = r.env(dir)
+	var stderr bytes.Buffer
+	cmd.Stderr = &stderr
+	runErr := cmd.Run()
+	t = &traced{dir: dir, dest: r.destOf(dir), stderr: stderr.String()}
+	if ctx.Err() != nil {
+		return t, fmt.Errorf("strace run timed out (%s)", r.sc.id())
+	}
+	var ee *exec.ExitError
+	switch {
+	case runErr == nil:
+	case errors.As(runErr, &ee):
+		// strace re-raises the signal that killed the tracee.
+		t.killed = ee.ExitCode() == -1 || ee.ExitCode() == 137
+		if !t.killed {
+			return t, fmt.Errorf("child failed (%s): %v: %s", r.sc.id(), runErr, stderr.String())
+		}
+	default:
+		return t, fmt.Errorf("strace: %v: %s", runErr, stderr.String())
+	}
+	if t.evs, err = parseLog(logPath, dir); err != nil {
+		return t, err
+	}
+	t.rel = relevant(t.evs)
+	return t, nil
+}
+
+func (t *traced) cleanup() { _ = os.RemoveAll(t.dir) }
+
+func readDest(p string) (b []byte, present bool, err error) {
+	b, err = os.ReadFile(p)
+	if errors.Is(err, os.ErrNotExist) {
+		return nil, false, nil
+	}
+	return b, err == nil, err
+}
+
+// recording is what a shard knows about a scenario after run 1.
+type recording struct {
+	rel      []*event
+	sigs     []string
+	markers  [3]int
+	versions [3][]byte
+	hasV0    bool
+	m        *model
+	dir      string
+}
+
+// killAt re-runs the child and kills it on entry to relevant event k of the
+// recording.  It retries when the injected run's call sequence diverges from
+// the recording.  ok is false if every attempt diverged.
+func (r *runner) killAt(rec *recording, k int) (b []byte, present, ok bool, why string, err error) {
+	target := rec.rel[k]
+	if !killCalls[target.Name] {
+		return nil, false, false, "", fmt.Errorf("event %d (%s) is not in the kill set", k, target.Name)
+	}
+	inject := fmt.Sprintf("inject=%s:signal=SIGKILL:when=%d", target.Name, target.Occ)
+	// Expected: the relevant events of the kill set up to k, the last killed.
+	var want []string
+	for i := 0; i <= k; i++ {
+		if killCalls[rec.rel[i].Name] {
+			want = append(want, rec.sigs[i])
+		}
+	}
+	for attempt := 0; attempt < 4; attempt++ {
+		t, rerr := r.run(killSet, inject)
+		if rerr != nil {
+			if t != nil {
+				t.cleanup()
+			}
+			return nil, false, false, "", rerr
+		}
+		why = ""
+		var got []string
+		for _, e := range t.rel {
+			got = append(got, e.sig(t.dir))
+		}
+		switch {
+		case !t.killed:
+			why = "child was not killed"
+		case len(got) != len(want):
+			why = fmt.Sprintf("%d relevant calls, recording predicts %d", len(got), len(want))
+		case !t.rel[len(t.rel)-1].killed():
+			why = "last relevant call returned"
+		default:
+			for i := range got {
+				if got[i] != want[i] {
+					why = fmt.Sprintf("call %d is %q, recording has %q", i, got[i], want[i])
+					break
+				}
+			}
+		}
+		if why == "" {
+			b, present, err = readDest(t.dest)
+			t.cleanup()
+			return b, present, true, "", err
+		}
+		if os.Getenv("VERIF_C14_DEBUG") != "" {
+			fmt.Fprintf(os.Stderr, "diverged (%s): %s\n", inject, why)
+		}
+		t.cleanup()
+		r.c.Count("kill_runs_diverged_retried", 1)
+	}
+	return nil, false, false, why, nil
+}
+
+// record performs run 1 and the two reference kills (at markers 1 and 2) that
+// give the complete versions, and builds the model.
+func (r *runner) record() (rec *recording, err error) {
+	t, err := r.run(recordSet, "")
+	if err != nil {
+		if t != nil {
+			t.cleanup()
+		}
+		return nil, err
+	}
+	defer t.cleanup()
+	if t.killed {
+		return nil, fmt.Errorf("recording run of %s was killed", r.sc.id())
+	}
+	rec = &recording{rel: t.rel, dir: t.dir}
+	for _, e := range t.rel {
+		rec.sigs = append(rec.sigs, e.sig(t.dir))
+	}
+	if rec.markers, err = findMarkers(t.rel, t.dir); err != nil {
+		return nil, fmt.Errorf("%s: %v", r.sc.id(), err)
+	}
+	v2, present, err := readDest(t.dest)
+	if err != nil || !present {
+		return nil, fmt.Errorf("%s: destination missing after the recording run: %v", r.sc.id(), err)
+	}
+	rec.versions[2] = v2
+	for j := 0; j < 2; j++ {
+		b, present, ok, why, kerr := r.killAt(rec, rec.markers[j])
+		if kerr != nil {
+			return nil, kerr
+		}
+		if !ok {
+			return nil, fmt.Errorf("%s: reference kill at marker %d keeps diverging: %s", r.sc.id(), j+1, why)
+		}
+		if j == 0 {
+			rec.hasV0 = present
+			if present != r.sc.Old {
+				return nil, fmt.Errorf("%s: destination present=%v at marker 1", r.sc.id(), present)
+			}
+		} else if !present {
+			return nil, fmt.Errorf("%s: destination absent at marker 2 (the first save returned)", r.sc.id())
+		}
+		rec.versions[j] = b
+	}
+	if bytes.Equal(rec.versions[1], rec.versions[2]) || (rec.hasV0 && bytes.Equal(rec.versions[0], rec.versions[1])) {
+		return nil, fmt.Errorf("%s: successive versions are equal, the scenario is vacuous", r.sc.id())
+	}
+	// Paths in the model are those of the recording run.
+	rec.m, err = buildModel(t.rel, t.dir, t.dest, rec.versions, rec.hasV0)
+	if err != nil {
+		return nil, fmt.Errorf("%s: %v", r.sc.id(), err)
+	}
+	if len(rec.m.unmodelled) > 0 {
+		return nil, fmt.Errorf("%s: calls on the working directory the model cannot interpret: %s", r.sc.id(), strings.Join(rec.m.unmodelled, "; "))
+	}
+	return rec, nil
+}
+
+// windowCalls renders the calls of the window for a violation report.
+func (rec *recording) windowCalls(around int) (out []string) {
+	lo, hi := rec.markers[0], rec.markers[2]
+	for i := lo; i <= hi; i++ {
+		if hi-lo > 60 && (i < around-25 || i > around+10) {
+			continue
+		}
+		mark := "  "
+		if i == around {
+			mark = "=>"
+		}
+		out = append(out, fmt.Sprintf("%s%d %s", mark, i, rec.sigs[i]))
+	}
+	return out
+}
+
+// allowedKill is the set of classes the statement allows for a kill on entry
+// to event k.
+func (rec *recording) allowedKill(k int) (set map[string]bool, text string) {
+	if k <= rec.markers[1] {
+		if rec.hasV0 {
+			return map[string]bool{"v0": true, "v1": true}, "complete v0 or complete v1"
+		}
+		return map[string]bool{"absent": true, "v1": true}, "absent (as before) or complete v1"
+	}
+	return map[string]bool{"v1": true, "v2": true}, "complete v1 or complete v2"
+}
+
+func describe(sc scenario, rec *recording, what string) string {
+	return fmt.Sprintf("%s\nscenario: %s (sizes v0=%d v1=%d v2=%d bytes, v0 present=%v)", what, sc.id(),
+		len(rec.versions[0]), len(rec.versions[1]), len(rec.versions[2]), rec.hasV0)
+}
+
+// checkKill performs the real kill at event k and judges it.  It returns the
+// violation (nil if none).
+func (r *runner) checkKill(rec *recording, k int, confirm bool) (cs *caseC, desc string, err error) {
+	c := r.c
+	b, present, ok, why, err := r.killAt(rec, k)
+	if err != nil {
+		return nil, "", err
+	}
+	if !ok {
+		c.Count("kill_points_unreached", 1)
+		c.NotExhaustive(fmt.Sprintf("kill point %d of %s could not be reproduced: %s", k, r.sc.id(), why))
+		return nil, "", nil
+	}
+	c.Count("real_kills", 1)
+	class := classifyBytes(b, present, rec.versions, rec.hasV0)
+	c.Distinct("outcomes", r.sc.Kind+":"+class)
+	isMarker := k == rec.markers[0] || k == rec.markers[1] || k == rec.markers[2]
+	if !isMarker {
+		c.Distinct("nontrivial", r.sc.id()+"#"+strconv.Itoa(k))
+	}
+
+	// Model prediction for this prefix: nothing is lost by a SIGKILL.
+	pc, ppresent := rec.m.eval(k, 0, -1, 0)
+	pb, pok := rec.m.materialize(pc)
+	if ppresent == present && (!present || (pok && bytes.Equal(pb, b))) {
+		c.Count("kills_matching_model", 1)
+	} else {
+		c.Count("kills_not_matching_model", 1)
+		c.EngineError(fmt.Sprintf("%s: kill at event %d (%s): observed %s (%d bytes), the log model predicts %s", r.sc.id(), k,
+			rec.sigs[k], class, len(b), rec.m.classifyContent(pc, ppresent)))
+	}
+
+	allowed, text := rec.allowedKill(k)
+	if allowed[class] {
+		return nil, "", nil
+	}
+	if confirm {
+		// Re-run before reporting.
+		b2, present2, ok2, _, err2 := r.killAt(rec, k)
+		if err2 != nil || !ok2 || classifyBytes(b2, present2, rec.versions, rec.hasV0) != class {
+			c.EngineError(fmt.Sprintf("%s: kill at event %d gave %s once and something else on re-run", r.sc.id(), k, class))
+			return nil, "", nil
+		}
+	}
+	cs = &caseC{Scenario: r.sc, Mode: "kill", K: k, Call: rec.sigs[k], Observed: class, Allowed: text, Window: rec.windowCalls(k)}
+	desc = describe(r.sc, rec, fmt.Sprintf(
+		"after SIGKILL on entry to call %d (%s) the destination is %s (%d bytes); the statement allows %s",
+		k, rec.sigs[k], class, len(b), text))
+	return cs, desc, nil
+}
+
+func run(c *lib.Ctx) {
+	self, err := os.Executable()
+	if err != nil {
+		c.EngineError(err.Error())
+		return
+	}
+	if _, err = exec.LookPath("strace"); err != nil {
+		c.EngineError("strace is not installed: real kills impossible")
+		return
+	}
+	idx := 0
+	for si, sc := range scenarios(c.Tier) {
+		if c.Expired() {
+			return
+		}
+		r := &runner{c: c, sc: sc, self: self, seq: si * 1000000}
+		actual, err := r.calibrate()
+		if err != nil {
+			c.EngineError(err.Error())
+			return
+		}
+		rec, err := r.record()
+		if err != nil {
+			c.EngineError(err.Error())
+			return
+		}
+		owner := c.Mine(si)
+		if owner {
+			c.Count("scenarios", 1)
+			c.Count("recorded_window_calls", int64(rec.markers[2]-rec.markers[0]+1))
+			c.Max("max_file_bytes", int64(len(rec.versions[1])))
+			c.Distinct("file_sizes", sc.Kind+":"+strconv.Itoa(len(rec.versions[1])))
+			if sc.Size >= 2 && actual != len(rec.versions[1]) {
+				c.EngineError(fmt.Sprintf("%s: calibrated size %d, stored %d", sc.id(), actual, len(rec.versions[1])))
+			}
+			c.Sample(map[string]any{"scenario": sc.id(), "window_calls": rec.markers[2] - rec.markers[0] + 1,
+				"bytes": []int{len(rec.versions[0]), len(rec.versions[1]), len(rec.versions[2])}})
+			// (b) power-loss model, once per scenario.
+			rec.m.explore(func(st crashState, ok bool) {
+				c.Count("powerloss_states", 1)
+				c.Distinct("powerloss_classes", sc.Kind+":"+st.Class)
+				if st.R > 0 || st.D < st.OfN {
+					c.Distinct("nontrivial", sc.id()+fmt.Sprintf("#pl%d/%d/%d/%d", st.P, st.R, st.D, st.Torn))
+				}
+				if ok {
+					return
+				}
+				stc := st
+				text := "any complete version written so far, or absence if the file did not exist"
+				cs := caseC{Scenario: sc, Mode: "powerloss", Crash: &stc, Observed: st.Class,
+					Allowed: text, Window: rec.windowCalls(st.P - 1)}
+				if st.P > rec.markers[0] {
+					cs.Call = rec.sigs[st.P-1]
+				}
+				c.Violation("powerloss:"+sc.Kind+":"+st.Class, describe(sc, rec, fmt.Sprintf(
+					"power loss after the first %d calls of the recorded log (last executed: %s), with the last %d namespace operations "+
+						"and all but the first %d of %d unsynced data operations of the destination's file lost (torn bytes of the next write: %d): "+
+						"the destination holds %s = %s; the statement allows only a complete version (%s)",
+					st.P, cs.Call, st.R, st.D, st.OfN, st.Torn, st.Sym, st.Class, text)), cs)
+			})
+		}
+		// (a) real kills, dealt over all shards.
+		for k := rec.markers[0]; k <= rec.markers[2]; k++ {
+			if !killCalls[rec.rel[k].Name] {
+				continue
+			}
+			mine := c.Mine(idx)
+			idx++
+			if !mine {
+				continue
+			}
+			if c.Expired() {
+				return
+			}
+			cs, desc, err := r.checkKill(rec, k, true)
+			if err != nil {
+				c.EngineError(err.Error())
+				return
+			}
+			if cs != nil {
+				c.Violation("realkill:"+sc.Kind+":"+cs.Observed, desc, cs)
+			}
+		}
+	}
+}
+
+func replay(c *lib.Ctx, raw json.RawMessage) string {
+	var cs caseC
+	if err := json.Unmarshal(raw, &cs); err != nil {
+		return err.Error()
+	}
+	self, _ := os.Executable()
+	r := &runner{c: c, sc: cs.Scenario, self: self}
+	if _, err := r.calibrate(); err != nil {
+		return "engine: " + err.Error()
+	}
+	rec, err := r.record()
+	if err != nil {
+		return "engine: " + err.Error()
+	}
+	if cs.Mode == "kill" {
+		v, desc, err := r.checkKill(rec, cs.K, false)
+		if err != nil {
+			return "engine: " + err.Error()
+		}
+		if v != nil {
+			return desc + "\n" + strings.Join(v.Window, "\n")
+		}
+		return ""
+	}
+	out := ""
+	rec.m.explore(func(st crashState, ok bool) {
+		if !ok && out == "" && cs.Crash != nil && st.P == cs.Crash.P && st.R == cs.Crash.R && st.D == cs.Crash.D && st.Torn == cs.Crash.Torn {
+			out = fmt.Sprintf("power-loss state %+v is still reachable in a fresh recording\n%s", st, strings.Join(rec.windowCalls(st.P-1), "\n"))
+		}
+	})
+	return out
+}
 
 func main() {
 	if len(os.Args) > 1 && os.Args[1] == "-child" {
 		os.Exit(childMain(os.Args[2:]))
 	}
+	lib.Main(&lib.Harness{
+		Prop: "C14", Level: "fault_enumeration",
+		Shards: func(string) int { return 16 },
+		Budget: func(tier string) time.Duration {
+			if tier == "thorough" {
+				return 18 * time.Minute
+			}
+			return 80 * time.Second
+		},
+		Run: run, Replay: replay,
+		Evidence: func(m *lib.Merged) map[string]any {
+			return map[string]any{
+				"evaluations":                    m.Counters["real_kills"] + m.Counters["powerloss_states"],
+				"real_kills":                     m.Counters["real_kills"],
+				"powerloss_states":               m.Counters["powerloss_states"],
+				"traces_validated_against_impl":  m.Counters["kills_matching_model"],
+				"kills_not_matching_model":       m.Counters["kills_not_matching_model"],
+				"kill_points_unreached":          m.Counters["kill_points_unreached"],
+				"kill_runs_diverged_and_retried": m.Counters["kill_runs_diverged_retried"],
+				"scenarios":                      m.Counters["scenarios"],
+				"recorded_window_calls":          m.Counters["recorded_window_calls"],
+				"distinct_nontrivial":            m.Distinct["nontrivial"],
+				"distinct_kill_outcomes":         m.Distinct["outcomes"],
+				"distinct_powerloss_classes":     m.Distinct["powerloss_classes"],
+				"distinct_file_sizes":            m.Distinct["file_sizes"],
+				"max_file_bytes":                 m.Maxes["max_file_bytes"],
+				"rule": "3 writers (home.configuration.write, dhcpd onNotify->dbStore->writeDB, filtering tryRefreshFilters->updateIntl->finalizeUpdate) x wanted sizes " +
+					"{0,1,4095,4096,4097,1 MiB}(+32 MiB thorough; nearest reachable size where the writer has a minimum) x destination {present, absent} before x temporary-file placement " +
+					"{next to destination, other directory}; per scenario two successive saves; (a) one real SIGKILL on entry to every file-system call touching the working directory between " +
+					"the markers (every call of the kill set), destination then read back; (b) every power-loss state of the recorded log: prefix x namespace operations lost (any suffix not " +
+					"followed by a directory sync) x data operations of the destination's file on disk (any prefix since its last fsync) x next write torn at {1,4095,4096,4097,n/2,n-1} bytes. " +
+					"non-trivial = kill points strictly inside a save, and power-loss states in which something was lost",
+			}
+		},
+		Assumptions: []string{
+			"a kill lands on system-call entry; a torn single write(2) is represented only in the power-loss model (cut points 1, 4095, 4096, 4097, n/2, n-1), not by a real kill",
+			"power-loss model: rename/unlink/link/create are atomic and reach the disk in issue order (ordered metadata); data operations of one file reach the disk in order; fsync/fdatasync makes that file's data durable; nothing else is assumed durable; choices for files the destination path does not name are factored out (the observation reads only the destination)",
+			"the statement asks for atomicity, not durability: after a power loss any complete version written so far (or absence, if the file did not exist) is accepted; after a SIGKILL only the previous or the new version of the save in progress",
+			"filter lists use lines of up to 60000 bytes so that a 1 MiB / 32 MiB refresh has an enumerable number of write calls (the parser issues one write per rule line)",
+			"files written through a shared writable mapping or io_uring would be invisible; the recording run traces %file,%desc and the check fails as an engine error if any call it cannot interpret touches the working directory",
+			"migration helpers (configmigrate/v1.go, dhcpd/migrate.go) write through the same maybe.WriteFile and are not enumerated separately",
+		},
+	})
 }
